@@ -17,8 +17,15 @@ _work = None
 def workdir():
     global _work
     if _work is None:
+        keep = os.environ.get("VERIF_KEEP")
+        if keep:
+            os.makedirs(keep, exist_ok=True); _work = keep
+            return _work
         _work = tempfile.mkdtemp(prefix="cctz-verif-")
-        atexit.register(lambda: shutil.rmtree(_work, ignore_errors=True))
+        pid = os.getpid()
+        def _clean(w=_work, pid=pid):
+            if os.getpid() == pid: shutil.rmtree(w, ignore_errors=True)     # not from forked pool workers
+        atexit.register(_clean)
     return _work
 
 def compile_ir(src, extra=()):
